@@ -922,3 +922,49 @@ package client
 // which logs the masked form.
 //@ closure [C20] field_access Config.Pass in (*Conn).h_REGISTER, (*Conn).ConnectToContext
 //@ closure [C20] callers (*Conn).Pass in (*Conn).h_REGISTER
+
+// ---------------------------------------------------------------------------
+// handlers.go: capability sets. Safety (C02): these run inside built-in
+// handlers while holding the set's mutex without defer, so a panic here would
+// be recovered with the mutex still locked and every later CAP line would
+// block the event loop: they must not panic at all, and must release the lock.
+
+//@ pred capOK(c *capSet) := c != nil && c.caps != nil && held(c.mu) == 0
+
+//@ func (*capSet).Add
+//@   property C19
+//@   safety C02
+//@   requires capOK(c)
+//@   modifies entries(c.caps), $held, $tr
+//@   ensures $held === old($held) && c.caps == old(c.caps)
+//@   ensures [C19] forall i int :: 0 <= i && i < len(caps) && !(len(caps[i]) >= 1 && caps[i][0] == '-') ==> has(c.caps, caps[i])
+//@   ensures [C19] (forall i int :: 0 <= i && i < len(caps) ==> !(len(caps[i]) >= 1 && caps[i][0] == '-')) ==>
+//@        (forall i int :: 0 <= i && i < len(caps) ==> c.caps[caps[i]])
+//@        && (forall k int :: has(dom(c.caps), k) && !(exists i int :: 0 <= i && i < len(caps) && sid(caps[i]) == k) ==> old(has(dom(c.caps), k)) && vals(c.caps)[k] == old(vals(c.caps)[k]))
+//@        && (forall k int :: old(has(dom(c.caps), k)) ==> has(dom(c.caps), k))
+//@   loop 0:
+//@     invariant held(c.mu) == 1 && $held === upd(old($held), c.mu, 1) && c.caps == old(c.caps) && c.caps != nil
+//@     invariant [C19] forall i int :: 0 <= i && i < #i && !(len(caps[i]) >= 1 && caps[i][0] == '-') ==> has(c.caps, caps[i])
+//@     invariant [C19] (forall i int :: 0 <= i && i < len(caps) ==> !(len(caps[i]) >= 1 && caps[i][0] == '-')) ==>
+//@        (forall i int :: 0 <= i && i < #i ==> c.caps[caps[i]])
+//@        && (forall k int :: has(dom(c.caps), k) && !(exists i int :: 0 <= i && i < #i && sid(caps[i]) == k) ==> old(has(dom(c.caps), k)) && vals(c.caps)[k] == old(vals(c.caps)[k]))
+//@        && (forall k int :: old(has(dom(c.caps), k)) ==> has(dom(c.caps), k))
+//@ end
+
+//@ func (*capSet).Has
+//@   property C19
+//@   safety C02
+//@   requires capOK(c)
+//@   modifies $held, $tr
+//@   ensures $held === old($held)
+//@   ensures [C19] result == c.caps[cap]
+//@ end
+
+//@ func (*capSet).Size
+//@   property C19
+//@   safety C02
+//@   requires capOK(c)
+//@   modifies $held, $tr
+//@   ensures $held === old($held)
+//@   ensures [C19] result == len(c.caps)
+//@ end
